@@ -72,6 +72,7 @@ structure St where
   pgroups : List (Bytes × Bool × List Bytes) := []     -- reversed
   bs : List Batch := []                                -- reversed
   bgroups : List (Bytes × List Bytes) := []            -- reversed
+  srcsDone : List (List Batch × List (Bytes × List Bytes)) := []   -- completed batch sources (reversed, each reversed)
   oracle : List (Nat × Bytes) := []
   nonUTC : Bool := false
 
@@ -206,52 +207,99 @@ def judgeStream (st : St) (obs : List String) : Verdict := Id.run do
     let nt := recorded.length ≥ 2 && (brs.contains "key-escapes" || brs.contains "string-escapes" || brs.contains "int-beyond-2^53")
     return .ok nt brs
 
-def judgeBatch (st : St) (obs : List String) : Verdict := Id.run do
-  let recorded := st.bs.reverse
-  let recGroups := st.bgroups.reverse
-  let some status := obs.head?.bind parseStatus | return .badop s!"status {obs.head?}"
-  let some closes := (obs.getD 1 "").toNat? | return .badop "closes"
-  let some closedAt := (obs.getD 2 "").toNat? | return .badop "closedAt"
-  let some items := (obs.drop 3).mapM parseBItem | return .badop "batch item"
-  let o : BObs := { status := status, closes := closes, closedAt := closedAt, items := items.map (·.1), groups := items.map (·.2.1) }
+/-- One parsed batch source of the observation: `S <closes> <closedAt> <n> <item>*`. -/
+structure SrcObs where
+  closes : Nat
+  closedAt : Nat
+  items : List (Batch × (Bytes × List Bytes) × Option Int × Nat × Bool)
+  untilKnown : Bool
+
+partial def parseSrcs : List String → Option (List SrcObs × List String)
+  | "S" :: c :: a :: n :: rest => do
+    let c ← c.toNat?; let a ← a.toNat?; let n ← n.toNat?
+    if rest.length < n then none
+    let toks := rest.take n
+    let known := toks.all (fun t => (t.splitOn "|").getD 7 "" != "*")
+    let items ← (toks.map (fun t => t.replace "|*|" "|-|")).mapM parseBItem
+    let (more, tail) ← parseSrcs (rest.drop n)
+    pure (⟨c, a, items, known⟩ :: more, tail)
+  | rest => some ([], rest)
+
+def parseUntils (t : String) : Option (List Int) :=
+  if !t.startsWith "U:" then none else
+  let body := (t.drop 2).toString
+  if body == "-" then some [] else (body.splitOn ",").mapM (·.toInt?)
+
+/-- Judge one batch source: the spec (or exactly the recorded deviations) on what its collector received, then the tie. -/
+def judgeSrc (recTime : Bool) (zero : Int) (status : Status) (recorded : List Batch) (recGroups : List (Bytes × List Bytes))
+    (so : SrcObs) (i : Nat) : Except Verdict (List String × List String × List Int) := do
+  let items := so.items
+  let o : BObs := { status := status, closes := so.closes, closedAt := so.closedAt, items := items.map (·.1), groups := items.map (·.2.1) }
   let nonUTC := items.any (·.2.2.2.2)
-  -- 1. the property on the observed deliveries, or exactly the recorded deviations
   let (keys, expected) := batchDevs recorded
   let expGroups := if keys.contains "batch-empty-skipped" then devGroups recorded recGroups else recGroups
-  match specBatch st.recTime recorded recGroups o with
+  match specBatch recTime recorded recGroups o with
   | none => pure ()
   | some clause =>
     if keys.isEmpty then
-      return .specfail clause s!"status={statusStr status} batches={items.length}/{recorded.length} first-diff={firstDiff recorded o.items}"
-    match specBatch st.recTime expected expGroups o with
-    | some c2 => return .specfail c2 s!"deviations {keys} do not explain: status={statusStr status} batches={items.length}/{expected.length} first-diff={firstDiff expected o.items}"
+      throw (.specfail clause s!"source {i}: status={statusStr status} batches={items.length}/{recorded.length} first-diff={firstDiff recorded o.items}")
+    match specBatch recTime expected expGroups o with
+    | some c2 => throw (.specfail c2 s!"source {i}: deviations {keys} do not explain: status={statusStr status} batches={items.length}/{expected.length} first-diff={firstDiff expected o.items}")
     | none => pure ()
-  -- 2. the tie
-  let m := batchRoundTrip true st.zero st.recTime recorded
+  let m := batchRoundTrip true zero recTime recorded
   let obsItems : List BOut := items.map (fun it => ⟨it.1, it.2.2.1.getD 0⟩)
+  let mItems := if so.untilKnown then m.items else m.items.map (fun x => { x with until_ := 0 })
   let metaOK := items.all (fun it =>
-    it.2.2.1.isSome && it.2.2.2.1 == it.1.points.length &&
+    (it.2.2.1.isSome || !so.untilKnown) && it.2.2.2.1 == it.1.points.length &&
     it.2.1 == (groupID it.1.name it.1.byName it.1.tags, it.1.tags.map (·.1)))
-  if !(m.status == status && m.items == obsItems && m.closes == closes && m.closedAt == closedAt && metaOK && !nonUTC) then
-    return .mismatch s!"model batches={m.items.length} observed status={statusStr status} batches={items.length} first-diff={firstDiff m.items obsItems} meta={metaOK} nonUTC={nonUTC}"
+  if !(m.status == status && mItems == obsItems && m.closes == so.closes && m.closedAt == so.closedAt && metaOK && !nonUTC) then
+    throw (.mismatch s!"source {i}: model batches={m.items.length} observed status={statusStr status} batches={items.length} first-diff={firstDiff mItems obsItems} meta={metaOK} nonUTC={nonUTC}")
   let first := (readBatches recorded).head?.bind (fun b => b.points.head?.map (·.time))
-  let mut brs : List String := ["batch"] ++ shiftBr st.recTime st.zero first
+  let mut brs : List String := shiftBr recTime zero first
   if recorded.length ≥ 2 then brs := addBr brs "many-batches"
   if (recorded.map (fun b => b.tags)).eraseDups.length ≥ 2 then brs := addBr brs "many-groups"
   if recorded.any (·.byName) then brs := addBr brs "by-name"
   if recorded.any (fun b => b.tags.isEmpty) then brs := addBr brs "no-tags"
+  if recorded.any (fun b => b.points.any (fun p => p.tags != b.tags && !p.tags.isEmpty)) then brs := addBr brs "point-extra-tags"
   if recorded.any (fun b => !b.wfTmax) then brs := addBr brs "tmax-before-last-point"
   if recorded.any (fun b => b.points.any (fun p => p.time == b.tmax)) then brs := addBr brs "tmax-equals-last"
   for k in [0, 1, 2, 3] do
     if recorded.any (fun b => b.points.any (fun p => p.fields.any (fun kv => kv.2.kind == k))) then brs := addBr brs s!"kind{k}"
   if recorded.any (fun b => b.points.any (fun p => p.fields.any (fun kv => match kv.2 with | .int v => big53 v | _ => false))) then brs := addBr brs "int-beyond-2^53"
+  let strict := (specBatch recTime recorded recGroups o).isNone
+  pure (if strict then [] else keys, brs, m.items.map (·.until_))
+
+def sortInts (l : List Int) : List Int := l.mergeSort (fun a b => decide (a ≤ b))
+
+def judgeBatch (st : St) (obs : List String) : Verdict := Id.run do
+  let sources : List (List Batch × List (Bytes × List Bytes)) :=
+    (st.srcsDone.reverse ++ [(st.bs, st.bgroups)]).map (fun sg => (sg.1.reverse, sg.2.reverse))
+  let some status := obs.head?.bind parseStatus | return .badop s!"status {obs.head?}"
+  let some nsrc := (obs.getD 1 "").toNat? | return .badop "nsrc"
+  let some (srcObs, tail) := parseSrcs (obs.drop 2) | return .badop "batch sources"
+  let some untils := (tail.head?.bind parseUntils) | return .badop "untils"
+  if nsrc != sources.length || srcObs.length != sources.length then return .badop s!"sources {nsrc} {srcObs.length} {sources.length}"
+  let mut keys : List String := []
+  let mut brs : List String := ["batch"]
+  let mut mUntils : List Int := []
+  let mut i := 0
+  for (sg, so) in sources.zip srcObs do
+    match judgeSrc st.recTime st.zero status sg.1 sg.2 so i with
+    | .error v => return v
+    | .ok (k, b, u) =>
+      for x in k do keys := addBr keys x
+      for x in b do brs := addBr brs x
+      mUntils := mUntils ++ u
+    i := i + 1
+  if sortInts mUntils != sortInts untils then
+    return .mismatch s!"clock waits: model {sortInts mUntils} observed {sortInts untils}"
+  if sources.length ≥ 2 then brs := addBr brs "many-sources"
+  if sources.any (fun sg => sg.1.isEmpty) then brs := addBr brs "source-without-batches"
   for k in keys do brs := addBr brs s!"dev:{k}"
   match keys with
-  | key :: _ =>
-    if (specBatch st.recTime recorded recGroups o).isNone then return .ok true brs
-    return .known key s!"deviations {keys}; delivered {items.length}/{recorded.length} batches"
+  | key :: _ => return .known key s!"deviations {keys}; sources={sources.length}"
   | [] =>
-    let nt := recorded.length ≥ 1 && recorded.any (fun b => b.points.length ≥ 2)
+    let nt := sources.any (fun sg => sg.1.any (fun b => b.points.length ≥ 2))
     return .ok nt brs
 
 def judge (_id : String) (lines : Array String) : Verdict := Id.run do
@@ -287,6 +335,8 @@ def judge (_id : String) (lines : Array String) : Verdict := Id.run do
         | [g, d] => do pure ((← bytesTok g), (← parseNames d))
         | _ => none) | return .badop s!"b observation {l}"
       st := { st with bs := b :: st.bs, bgroups := g :: st.bgroups }
+    | ["src"] =>
+      st := { st with srcsDone := (st.bs, st.bgroups) :: st.srcsDone, bs := [], bgroups := [] }
     | ["replay"] =>
       if obs.head? == some "recerr" then return .badop s!"the recorder reported an error: {l}"
       if obs.head? == some "hang" then return .specfail "ends-after-last" "the replay did not finish (hang)"
